@@ -43,6 +43,7 @@ struct sched_result
     int diverged;          /* replaying the prefix met a choice that was out of range */
     int overflow;          /* more than SCHED_MAX_POINTS scheduling points */
     int trylock_failures;
+    int stuck;             /* a thread did not reach a scheduling point within the watchdog time (the process exits with 97) */
 };
 
 /* run `nthreads` bodies under the scheduler; choices[0..nchoices) are replayed (index into the canonical enabled
